@@ -362,6 +362,9 @@ func c34Fixed(kind string, a [][]byte) *Case {
 			if closesAfterWrite != 1 || closesEnd != 1 {
 				return Verdict{VSpec, "close-count", fmt.Sprintf("stream closed %d times after Write, %d after release (want 1, 1)", closesAfterWrite, closesEnd)}
 			}
+			if len(raw) > decl && len(produced) <= decl {
+				return Verdict{VSpec, "fixed-extra-bytes", fmt.Sprintf("declared size %d, stream produced %d bytes, yet %d body bytes are on the wire: %q", decl, len(produced), len(raw), raw)}
+			}
 			if len(raw) > decl {
 				return Verdict{VSpec, "fixed-overrun", fmt.Sprintf("declared size %d, stream produced %d bytes: %d body bytes on the wire behind Content-Length: %d (the excess is read by the peer as the next message); Write err=%v",
 					decl, len(produced), len(raw), decl, werr)}
@@ -1082,6 +1085,18 @@ func init() {
 					}
 				}
 				emit("fixed", append([][]byte{{objs[r.Intn(2)]}, N(decl)}, parts...)...)
+			}
+			// every small size, exact / one short / one long, as one and as two Read results
+			for sz := 0; sz <= 70; sz++ {
+				body := r.Bytes(sz, []byte("xyz\r\n0"))
+				for _, d := range []int{sz, sz + 1, sz - 1} {
+					if d < 0 {
+						continue
+					}
+					emit("fixed", []byte{objs[sz%2]}, N(d), body)
+					emit("fixed", []byte{objs[(sz+1)%2]}, N(d), body[:sz/2], body[sz/2:])
+				}
+				emit("chunk", []byte{objs[sz%2]}, []byte{'r'}, body[:sz/3], body[sz/3:])
 			}
 			// dec: valid encodings with variations, and mutations
 			for i := 0; i < n; i++ {
